@@ -100,6 +100,20 @@ def main():
                     if os.path.exists(os.path.join(common.COQ, f[:-2] + ".vo")):
                         discharged += len(common.count_theorems(f))
 
+        # thorough tier: re-check the compiled closure of the property file with the independent checker
+        coqchk_summary = None
+        if a.tier == "thorough" and a.replay is None and discharged == len(obligations):
+            import subprocess
+            modname_v = "CCP." + mod.PROPS[:-3].replace("/", ".")
+            r = subprocess.run(["timeout", "1500", "coqchk", "-silent", "-o", "-Q", ".", "CCP", modname_v], cwd=common.COQ,
+                               stdout=subprocess.PIPE, stderr=subprocess.STDOUT, text=True)
+            txt = "\n".join(l for l in r.stdout.splitlines() if common.NOISE not in l)
+            if r.returncode != 0:
+                problems.append({"kind": "coqchk", "what": "coqchk rejected the compiled closure of %s" % mod.PROPS, "log": txt[-2000:]})
+            else:
+                import re as _re
+                m = _re.search(r"\* Axioms:(.*?)\* Constants/Inductives relying on type-in-type", txt, flags=_re.S)
+                coqchk_summary = "coqchk -o on %s: axioms: %s" % (modname_v, " ".join((m.group(1) if m else "?").split()) or "<none>")
         outer.close()
 
         # ---- 4. fingerprints of the anchored functions: a change escalates exploration, never alarms
@@ -227,6 +241,8 @@ def main():
             tb = list(mod.TRUSTED)
             tb.append("Print Assumptions on %d theorems: %d closed under the global context; axioms: %s" % (
                 len(common.count_theorems(mod.PROPS[:-1])), assumptions["closed"], assumptions["axioms"] or "none"))
+            if coqchk_summary:
+                tb.append(coqchk_summary)
             cov = {
                 "obligations": len(obligations), "discharged": discharged,
                 "checker_cmd": "cd /verif/coq && make %s   (coqc 8.16.1, full .vo build; Props file rebuilt on every run)" % mod.PROPS,
